@@ -182,6 +182,48 @@ Inductive dop := DOk | DThrow (cls : Z).
 Definition depth_expected (ops : list dop) : list Z :=
   map (fun o => match o with DOk => 0 | DThrow c => c end) ops ++ [0; 0; 0].
 
+(* one binding written repeatedly with Go values that may be the same JavaScript number in different
+   kinds / exactness: every read must give back the LAST value written *)
+Inductive khop :=
+| KSet (g : gscalar)            (* through the Go API *)
+| KSetScript (g : gscalar)      (* by a script, as the literal of the counterpart double (float64 payload) *)
+| KRead (via : Z).              (* 0 Go API Get + Export, 1 script read + Export *)
+
+Fixpoint krun (cur : gscalar) (ops : list khop) : list (ob gscalar) :=
+  match ops with
+  | [] => []
+  | KSet g :: r => krun (canon (export (toValue false g))) r
+  | KSetScript g :: r => krun (GF64 (spec_to_float (fun _ => 0) g)) r
+  | KRead _ :: r => OVal cur :: krun cur r
+  end.
+
+(* host entry points used re-entrantly from a native callback under script frames that shadow the
+   global names pick / gv / gs.  frame: 0 parameters, 1 locals, 2 with-object, 3 catch variables,
+   4 locals of an enclosing function, 5 no shadowing *)
+Definition frame_tag (frame : Z) : list Z :=
+  if frame =? 0 then [112; 97; 114; 97; 109] else if frame =? 1 then [108; 111; 99; 97; 108]
+  else if frame =? 2 then [119; 105; 116; 104] else if frame =? 3 then [99; 97; 116; 99; 104]
+  else if frame =? 4 then [110; 101; 115; 116; 101; 100] else [103; 108; 111; 98; 97; 108].
+Definition s_global : list Z := [103; 108; 111; 98; 97; 108].
+Definition s_pick (tag : list Z) (n : Z) : list Z := tag ++ [32; 112; 105; 99; 107; 40] ++ decimal n ++ [41].
+Definition s_gv (tag : list Z) : list Z := tag ++ [32; 103; 118].
+Definition s_gs (tag : list Z) : list Z := tag ++ [32; 103; 115].
+Definition s_set (n : Z) : list Z := [115; 101; 116; 32] ++ decimal n.
+(* op: 0 Otto.Call("pick", nil, n)  1 Otto.Call("pick", this, n)  2 Value.Call  3 Object.Call on holder2
+   4 Otto.Get("gv")  5 Otto.Set("gs", "set n") then Otto.Get("gs")  6 Otto.Run("pick(n)")  7 Otto.Eval("pick(n)")
+   8 Otto.Run("gv")  9 Otto.Eval("gv")  10 Otto.Call("holder2.pick", nil, n)  11 Otto.Call("new ...") not used.
+   Call/Get/Set/Run work on the global scope; Eval on the caller's *)
+Definition reentry_result (op frame n : Z) : list Z :=
+  if (op =? 3) || (op =? 10) then s_pick [104; 111; 108; 100; 101; 114] n
+  else if (op =? 4) || (op =? 8) then s_gv s_global
+  else if op =? 5 then s_set n
+  else if op =? 7 then s_pick (frame_tag frame) n
+  else if op =? 9 then s_gv (frame_tag frame)
+  else s_pick s_global n.
+(* what the frame itself reads from gs afterwards: its own binding; the global one when nothing shadows *)
+Definition reentry_local (op frame n : Z) : list Z :=
+  if frame =? 5 then (if op =? 5 then s_set n else s_gs s_global) else s_gs (frame_tag frame).
+
 Inductive case :=
 | CExport (path : Z) (g : gscalar) (obs : ob gscalar)
 | CToFloat (path : Z) (g : gscalar) (onum : Z) (obs : ob Z)
@@ -220,6 +262,11 @@ Inductive case :=
    change of (deepest recursion reachable through Otto.Call, through a script, length of Error().stack)
    against the measurements taken before the history; lang: the same history made in-language *)
 | CDepthHist (limit : Z) (ops : list dop) (api lang : list Z)
+(* target 0 global name (Otto.Set/Get), 1 object property, 2 array index (Object.Set/Get) *)
+| CKindHist (target : Z) (ops : list khop) (obs : list (ob gscalar))
+(* ref: the same operation at rest (for Eval: the in-language eval in the same frame); reent: from the native
+   callback; local: the frame's own gs afterwards *)
+| CReentry (op frame n : Z) (ref reent local : ob (list Z))
 (* a sequence of calls made through the Go API against the same sequence made in-language *)
 | CCallSeq (steps : list cstep) (obs_api obs_lang : list (ob (list (list Z))))
 (* histories of writes and reads of bindings: store 0 = global names (Otto.Set/Get), 1 = properties of a
@@ -387,6 +434,16 @@ Definition verdict_callseq (steps : list cstep) (obs_api obs_lang : list (ob (li
 Definition verdict (c : case) : Z * Z :=
   match c with
   | CCallSeq steps a l => verdict_callseq steps a l
+  | CKindHist _ ops obs =>
+      let e := krun GNil ops in
+      judge (list_eqb (ob_eqb gscalar_eqb))
+            (map (fun o => match o with OVal x => OVal (canon x) | o' => o' end) obs) e e 0
+  | CReentry op frame n ref reent loc =>
+      let e := (OVal (reentry_result op frame n), OVal (reentry_result op frame n), OVal (reentry_local op frame n)) in
+      judge (fun a b : ob (list Z) * ob (list Z) * ob (list Z) =>
+               ob_eqb zlist_eqb (fst (fst a)) (fst (fst b)) && ob_eqb zlist_eqb (snd (fst a)) (snd (fst b)) &&
+               ob_eqb zlist_eqb (snd a) (snd b))
+            (ref, reent, loc) e e 0
   | CObjHandle _ _ data ident ty exp =>
       let m := export_m data in
       judge (fun a b : ob bool * ob Z * ob gv =>
